@@ -48,6 +48,11 @@ Judge(v) == Report(WithXfer(v)) /\ bad' = bad \cup WithXfer(v)
 Is4xx(n) == n >= 400 /\ n <= 499
 HttpOk(st, ok, good) == IF st = 0 \/ (ok /\ st = good) \/ (~ok /\ Is4xx(st)) THEN {} ELSE {"C13"}
 
+(* C13 (and C12 when the request was built by the command line client): the front end's answer is the *)
+(* answer the Store API gives to the same question in the same state (E.same, established by the harness *)
+(* by asking again past the front end; nothing runs in between)                                          *)
+FrontEnd == IF E.via = "api" \/ E.same THEN {} ELSE IF E.via = "cli" THEN {"C13", "C12"} ELSE {"C13"}
+
 ReEvict(h) == [h EXCEPT !.evictable = h.evictable \cup EvictableNow(h)]
 
 Reset ==
@@ -57,8 +62,13 @@ Reset ==
 
 EvAppend ==
   /\ Is("append")
-  /\ Judge(AppendVerdict(g, E.ctx, E.topic, E.ttl, E.meta, E.hash, E.ok, E.id, FrameOf(E.f))
-           \cup HttpOk(E.status, E.ok, 200))
+  /\ Judge(IF ~E.front
+           \* refused by the front end, accepted by the Store API a moment later: the front end's fault alone
+           THEN (IF E.via = "cli" THEN {"C13", "C12"} ELSE {"C13"})
+           ELSE LET v == AppendVerdict(g, E.ctx, E.topic, E.ttl, E.meta, E.hash, E.ok, E.id, FrameOf(E.f)) IN
+                \* what a front end hands to the store is what it was asked to append
+                v \cup HttpOk(E.status, E.ok, 200)
+                  \cup (IF E.via # "api" /\ E.ok /\ "C12" \in v THEN {"C13"} ELSE {}))
   /\ IF ~E.ok THEN UNCHANGED <<g, owed>>
      ELSE LET f == FrameOf(E.f) IN
           IF f.ttl = Eph
@@ -74,7 +84,7 @@ EvImport ==
   /\ LET f == FrameOf(E.f)
          id == E.f.id
          nul == f.topic \in NulTopics
-     IN /\ Judge(ImportVerdict(g, id, f, E.ok) \cup HttpOk(E.status, E.ok, 200))
+     IN /\ Judge(ImportVerdict(g, id, f, E.ok) \cup HttpOk(E.status, E.ok, 200) \cup FrontEnd)
         /\ IF E.ok
            THEN \* (an id once handed out for an ephemeral append may come back as an imported, stored frame)
                 /\ g' = ReEvict([g EXCEPT !.acc = Put(@, id, f), !.removed = @ \ {id}, !.gone = @ \ {id}, !.eph = @ \ {id}])
@@ -88,7 +98,7 @@ EvImport ==
 
 EvRemove ==
   /\ Is("remove")
-  /\ Judge(HttpOk(E.status, TRUE, 204))
+  /\ Judge(HttpOk(E.status, TRUE, 204) \cup FrontEnd)
   /\ g' = IF E.id \in DOMAIN g.acc THEN [g EXCEPT !.removed = @ \cup {E.id}] ELSE g
   /\ UNCHANGED <<b, met, owed, lost, imported, src, known>>
 
@@ -100,7 +110,7 @@ EvTick ==
 (* `tail` without `follow`: there is no historical replay and no live side, the read is empty *)
 EvReadTail ==
   /\ Is("read") /\ E.tail
-  /\ Judge((IF E.res = <<>> THEN {} ELSE {"C11", "C13"}) \cup HttpOk(E.status, TRUE, 200))
+  /\ Judge((IF E.res = <<>> THEN {} ELSE {"C11", "C13"}) \cup HttpOk(E.status, TRUE, 200) \cup FrontEnd)
   /\ UNCHANGED <<b, g, met, owed, lost, imported, src, known>>
 
 EvRead ==
@@ -108,7 +118,7 @@ EvRead ==
   /\ LET ids == IdsOf(E.res) IN
      /\ LET v == ReadVerdict(g, E.ctx, E.last, E.lim, E.res) IN
         \* a wrong result of a read with a limit is also a matter of C11 ("exactly the first n matching frames")
-        Judge((IF E.lim # NOLIM /\ v \cap {"C01", "C08"} # {} THEN v \cup {"C11"} ELSE v) \cup HttpOk(E.status, TRUE, 200))
+        Judge((IF E.lim # NOLIM /\ v \cap {"C01", "C08"} # {} THEN v \cup {"C11"} ELSE v) \cup HttpOk(E.status, TRUE, 200) \cup FrontEnd)
      /\ met' = met \cup MetBy(g, E.ctx, E.last, E.lim, ids)
      /\ g' = [g EXCEPT !.gone = @ \cup Skipped(g, E.ctx, E.last, E.lim, ids)]
   /\ UNCHANGED <<b, owed, lost, imported, src, known>>
@@ -134,14 +144,14 @@ EvSlowRead ==
 
 EvGet ==
   /\ Is("get")
-  /\ Judge(GetVerdict(g, E.id, E.res)
+  /\ Judge(GetVerdict(g, E.id, E.res) \cup FrontEnd
            \cup (IF E.status = 0 \/ E.status = (IF E.res = <<>> THEN 404 ELSE 200) THEN {} ELSE {"C13"}))
   /\ g' = IF E.res = <<>> /\ E.id \in Present(g) THEN [g EXCEPT !.gone = @ \cup {E.id}] ELSE g
   /\ UNCHANGED <<b, met, owed, lost, imported, src, known>>
 
 EvHead ==
   /\ Is("head")
-  /\ Judge(HeadVerdict(g, E.topic, E.ctx, E.res)
+  /\ Judge(HeadVerdict(g, E.topic, E.ctx, E.res) \cup FrontEnd
            \cup (IF E.status = 0 \/ E.status = (IF E.res = <<>> THEN 404 ELSE 200) THEN {} ELSE {"C13"}))
   /\ LET top == IF E.res = <<>> THEN NOID ELSE E.res[1].id
          newer == {j \in TopicIds(g, E.ctx, E.topic) : j > top /\ ~Expired(j, g.acc[j], g.clock)}
@@ -216,18 +226,25 @@ EvFollowProbe ==
          \* known finding C03-future-dated-history-drops-live: the replayed history of the context holds a frame
          \* whose id lies above the ids of the frames appended meanwhile (an imported frame dated ahead of the
          \* clock); the live side drops everything at or below the last scanned id, i.e. all of them
-         futureHist == \E i \in avail \ {E.appended[j].id : j \in 1..Len(E.appended)} : \E j \in 1..Len(E.appended) : E.appended[j].ctx = E.ctx /\ i > E.appended[j].id
+         \* (only a stream that replays the history hands a last scanned id over to its live side)
+         replays == E.route \in {"catlim", "cathist"}
+         futureHist == /\ replays
+                       /\ \E i \in avail \ {E.appended[j].id : j \in 1..Len(E.appended)} :
+                            \E j \in 1..Len(E.appended) : E.appended[j].ctx = E.ctx /\ i > E.appended[j].id
          short == E.route = "catlim" /\ Len(E.res) # (IF Cardinality(avail) < E.lim THEN Cardinality(avail) ELSE E.lim)
                      /\ avail \cap g.evictable = {}
+         missing == E.route # "catlim" /\ ~(want \subseteq got)
+         \* with the whole history replayed first: everything of the context that a read returns now is there
+         histGap == E.route = "cathist" /\ ~((avail \ g.evictable) \subseteq got)
      IN
-     /\ known' = IF short /\ futureHist THEN known \cup {"C03-future-dated-history-drops-live"} ELSE known
+     /\ known' = IF (short \/ missing \/ histGap) /\ futureHist THEN known \cup {"C03-future-dated-history-drops-live"} ELSE known
      /\ Judge((IF E.status # 200 THEN {"C13"} ELSE {})
               \cup (IF short /\ ~futureHist THEN {"C11", "C13"} ELSE {})
               \cup (IF \E j \in 1..Len(E.res) : E.res[j].ctx # E.ctx THEN {"C06"} ELSE {})
               \cup (IF E.route = "head" /\ \E j \in 1..Len(E.res) : E.res[j].topic # E.topic THEN {"C05", "C13"} ELSE {})
-              \cup (IF E.route # "catlim" /\ ~(want \subseteq got) THEN {"C03", "C13"} ELSE {})
+              \cup (IF (missing \/ histGap) /\ ~futureHist THEN {"C03", "C13"} ELSE {})
               \* (the first line of head --follow is the current head, which may be an imported frame with any id)
-              \cup (IF \E a, c \in (IF E.route = "head" THEN 2 ELSE 1)..Len(E.res) : a < c /\ E.res[a].id >= E.res[c].id
+              \cup (IF ~futureHist /\ \E a, c \in (IF E.route = "head" THEN 2 ELSE 1)..Len(E.res) : a < c /\ E.res[a].id >= E.res[c].id
                     THEN {"C03", "C13"} ELSE {}))
   /\ UNCHANGED <<b, g, met, owed, lost, imported, src>>
 
